@@ -710,3 +710,114 @@ func normaliserDedupesTargets(c *Ctx) {
 		c.undecided(R, fname+"#shape", c.P.Pos(d.fd.Pos()), "no append onto a rebuilt edge's To found")
 	}
 }
+
+// nestingAcyclic: C07 — clearAutoRefs (and the encoder) descend the component tree recursively; the
+// descent is finite only while the tree is a tree. A by-value copy of a component appended to the
+// child list of that same component carries the pointer to that very list: the structure becomes
+// cyclic and the descent never ends. Every such attachment must exclude parent == child.
+func nestingAcyclic(c *Ctx) {
+	const R = "nesting-is-acyclic"
+	c.rule(R, "every statement that appends the by-value copy *Y of an existing component (a dictionary entry, a parameter) onto (*X).Components is dominated by a test that X and Y differ — by pointer, or by key when both are entries M[K1], M[K2] of one dictionary (an early exit on equality or an enclosing `!=`): a component nested in itself shares its own child list, and the recursive passes over the tree (clearAutoRefs, encoding) do not terminate")
+	n := 0
+	for _, d := range pkgFilter(c.reachDecls(R, cdxSer), "serializers.") {
+		defs := singleDefs(d.pkg, d.fd.Body)
+		ref := func(e ast.Expr) (text string, ix *ast.IndexExpr) {
+			e = chase(d.pkg, defs, e)
+			ix, _ = e.(*ast.IndexExpr)
+			return normText(types.ExprString(e)), ix
+		}
+		keyText := func(e ast.Expr) string { return normText(types.ExprString(chase(d.pkg, defs, e))) }
+		ast.Inspect(d.fd.Body, func(x ast.Node) bool {
+			as, ok := x.(*ast.AssignStmt)
+			if !ok || len(as.Rhs) != 1 {
+				return true
+			}
+			ce, isCall := as.Rhs[0].(*ast.CallExpr)
+			if !isCall || len(ce.Args) < 2 {
+				return true
+			}
+			if id, isId := ce.Fun.(*ast.Ident); !isId || id.Name != "append" {
+				return true
+			}
+			first := ce.Args[0]
+			if st, isStar := first.(*ast.StarExpr); isStar {
+				first = st.X
+			}
+			sel, isSel := first.(*ast.SelectorExpr)
+			if !isSel || sel.Sel.Name != "Components" {
+				return true
+			}
+			pt := d.pkg.TypesInfo.TypeOf(sel.X)
+			if pt == nil {
+				return true
+			}
+			if _, isPtr := pt.Underlying().(*types.Pointer); !isPtr {
+				return true
+			}
+			pText, pIx := ref(sel.X)
+			for _, a := range ce.Args[1:] {
+				st, isStar := a.(*ast.StarExpr)
+				if !isStar {
+					continue // a freshly built value has no child list yet
+				}
+				ct := d.pkg.TypesInfo.TypeOf(st.X)
+				if ct == nil || !types.Identical(ct, pt) {
+					continue
+				}
+				cText, cIx := ref(st.X)
+				n++
+				construct := fmt.Sprintf("%s#attach@%d", d.name, n)
+				same := func(a, b string) bool { return a == b }
+				isCmp := func(e ast.Expr, op token.Token) bool {
+					be, ok := e.(*ast.BinaryExpr)
+					if !ok || be.Op != op {
+						return false
+					}
+					l, r := keyText(be.X), keyText(be.Y)
+					// pointer comparison of the two components
+					if (same(l, pText) && same(r, cText)) || (same(l, cText) && same(r, pText)) {
+						return true
+					}
+					// key comparison when both are entries of one dictionary
+					if pIx != nil && cIx != nil && normText(types.ExprString(pIx.X)) == normText(types.ExprString(cIx.X)) {
+						pk, ck := keyText(pIx.Index), keyText(cIx.Index)
+						return (l == pk && r == ck) || (l == ck && r == pk)
+					}
+					return false
+				}
+				differ := false
+				chain := enclosing(d.fd.Body, as)
+				for i, en := range chain {
+					switch y := en.(type) {
+					case *ast.IfStmt:
+						if i+1 < len(chain) && chain[i+1] == ast.Node(y.Body) {
+							for _, cj := range conjuncts(y.Cond) {
+								if isCmp(cj, token.NEQ) {
+									differ = true
+								}
+							}
+						}
+					case *ast.BlockStmt:
+						if i+1 >= len(chain) {
+							continue
+						}
+						for _, st2 := range y.List {
+							if st2 == chain[i+1] {
+								break
+							}
+							if ifs, isIf := st2.(*ast.IfStmt); isIf && terminates(ifs.Body) && isCmp(ifs.Cond, token.EQL) {
+								differ = true
+							}
+						}
+					}
+				}
+				c.check(differ, R, construct, c.P.Pos(as.Pos()), "parent and child are known to differ",
+					fmt.Sprintf("the copy of %s is appended to the child list of %s without excluding that they are the same component: a node that contains itself yields a component whose child list contains a copy sharing that same list, and the recursive passes over the tree overflow the stack", cText, pText))
+			}
+			return true
+		})
+	}
+	if n == 0 {
+		c.undecided(R, "anchor:attachment", "-", "no attachment of an existing component to another component's Components found")
+	}
+}
